@@ -29,14 +29,16 @@ CONSTANTS WB,            \* bytes of a "32-bit" field
           Alphabet,      \* set of sample shapes [len, dur, cts, sync] (dur a Big)
           MaxSamples,    \* bound on accepted write_sample calls
           MaxRejects,    \* bound on rejected calls
-          FixEmptyChunk, FixStss, FixTkhd   \* TRUE = behaviour of the repaired tree
+          MaxFaults,     \* bound on write_sample calls during which the stream fails
+          FixEmptyChunk, FixStss, FixTkhd, FixFlushOrder   \* TRUE = behaviour of the repaired tree
 
 VARIABLES tw,      \* Seq of track-writer records
           pos,     \* stream position (Big)
           lay,     \* set of [off, len, id]: where each sample's bytes went
           calls,   \* history of public calls (for replay against the real code)
-          rejects  \* number of rejected calls so far
-ivars == <<phase, cfg, tracks, file, tw, pos, lay, calls, rejects>>
+          rejects, \* number of rejected calls so far
+          faults   \* number of calls during which the stream failed (environment)
+ivars == <<phase, cfg, tracks, file, tw, pos, lay, calls, rejects, faults>>
 
 U32Max == Sub([i \in 1..(WB + 1) |-> IF i = 1 THEN 1 ELSE 0], <<1>>)     \* 256^WB - 1
 FitsU32(a) == Len(a) <= WB
@@ -52,7 +54,8 @@ NewTrack(id, conf) ==
     stts |-> <<>>, ctts |-> [some |-> FALSE, entries |-> <<>>], stss |-> [some |-> FALSE, entries |-> <<>>],
     stsc |-> <<>>, co |-> <<>>, sampleId |-> 1,
     chunkSamples |-> 0, chunkDur |-> <<>>, chunkIds |-> <<>>, chunkLens |-> <<>>,
-    mdhdDur |-> <<>>, mdhdVer |-> 0, tkhdDur |-> <<>>, tkhdVer |-> 0 ]
+    mdhdDur |-> <<>>, mdhdVer |-> 0, tkhdDur |-> <<>>, tkhdVer |-> 0,
+    panicked |-> FALSE ]     \* an unsigned subtraction went below zero (update_sample_to_chunk)
 
 -----------------------------------------------------------------------------
 (* steps of Mp4TrackWriter::write_sample, as functions on the track record *)
@@ -95,10 +98,12 @@ UpdateSyncSamples(t, sync) ==
 IsChunkFull(t) == Leq(t.conf.timescale, t.chunkDur)
 
 \* write_chunk + update_sample_to_chunk + update_chunk_offsets at stream position p.
-\* Returns [t, pos, lay]
+\* Returns [t, pos, lay].  update_sample_to_chunk computes the (unwritten) first_sample of a new run as
+\* sample_id - chunk_samples (+ 1) in unsigned arithmetic: it panics when sample_id < chunk_samples.
+SkipsFlush(t) == IF FixEmptyChunk THEN t.chunkSamples = 0 ELSE IntSum(t.chunkLens) = 0
 WriteChunk(t, p, l) ==
   LET total == IntSum(t.chunkLens)
-      skip  == IF FixEmptyChunk THEN t.chunkSamples = 0 ELSE total = 0 IN
+      skip  == SkipsFlush(t) IN
   IF skip THEN [t |-> t, pos |-> p, lay |-> l]
   ELSE LET chunkId == Len(t.co) + 1
            sameRun == Len(t.stsc) > 0 /\ t.stsc[Len(t.stsc)].spc = t.chunkSamples
@@ -109,7 +114,8 @@ WriteChunk(t, p, l) ==
                       Add(p, FromInt(IntSum([j \in 1..(i - 1) |-> t.chunkLens[j]])))]
            newLay == { [off |-> offs[i], len |-> t.chunkLens[i], id |-> t.chunkIds[i]] : i \in 1..Len(t.chunkLens) }
        IN [ t |-> [t EXCEPT !.stsc = stsc1, !.co = Append(@, p), !.chunkSamples = 0, !.chunkDur = <<>>,
-                            !.chunkIds = <<>>, !.chunkLens = <<>>],
+                            !.chunkIds = <<>>, !.chunkLens = <<>>,
+                            !.panicked = @ \/ (~sameRun /\ t.sampleId < t.chunkSamples)],
             pos |-> Add(p, FromInt(total)),
             lay |-> l \cup newLay ]
 
@@ -123,44 +129,71 @@ UpdateDurations(t, dur) ==
                !.tkhdDur = td, !.tkhdVer = IF FitsU32(td) THEN @ ELSE 1]
 
 -----------------------------------------------------------------------------
-IInit == /\ MInit /\ tw = <<>> /\ pos = StartPos /\ lay = {} /\ calls = <<>> /\ rejects = 0
+IInit == /\ MInit /\ tw = <<>> /\ pos = StartPos /\ lay = {} /\ calls = <<>> /\ rejects = 0 /\ faults = 0
 
 \* write_start: ftyp, then 8 bytes mdat header + 8 bytes "wide" placeholder
 IStart == /\ phase = "init"
           /\ Start([timescale |-> MovieTs])
           /\ pos' = Add(StartPos, FromInt(FtypLen + 16))
-          /\ UNCHANGED <<tw, lay, calls, rejects>>
+          /\ UNCHANGED <<tw, lay, calls, rejects, faults>>
 
 IAddTrack == /\ phase = "open" /\ Len(tw) < Len(Confs) /\ Len(calls) = Len(tw)   \* tracks are added first
              /\ LET conf == Confs[Len(tw) + 1] IN
                 /\ AddTrack(conf)
                 /\ tw' = Append(tw, NewTrack(Len(tw) + 1, conf))
                 /\ calls' = Append(calls, [op |-> "add", conf |-> conf])
-             /\ UNCHANGED <<pos, lay, rejects>>
+             /\ UNCHANGED <<pos, lay, rejects, faults>>
 
 NumWrites == Len(SelectSeq(calls, LAMBDA c : c.op = "write" /\ c.valid))
+
+\* the steps of write_sample up to the flush decision.  The repaired tree accounts for the sample
+\* (durations, sample_id) BEFORE the flush, the pinned tree after it.
+Recorded(t0, id, a) ==
+  LET t1 == [t0 EXCEPT !.chunkIds = Append(@, id), !.chunkLens = Append(@, a.len),
+                       !.chunkSamples = @ + 1, !.chunkDur = SatAdd32(@, a.dur)]
+      t2 == UpdateSampleSizes(t1, a.len)
+      t3 == UpdateSampleTimes(t2, a.dur)
+      t4 == UpdateRenderingOffsets(t3, a.cts)
+  IN UpdateSyncSamples(t4, a.sync)
+Accounted(t, a) == [UpdateDurations(t, a.dur) EXCEPT !.sampleId = @ + 1]
 
 IWriteSample ==
   /\ phase = "open" /\ Len(tw) = Len(Confs) /\ NumWrites < MaxSamples
   /\ \E t \in 1..Len(tw), a \in Alphabet :
        LET k  == Len(tracks[t].samples) + 1
            s  == [len |-> a.len, h |-> <<>>, b |-> <<t, k>>, dur |-> a.dur, cts |-> a.cts, sync |-> a.sync]
-           t0 == tw[t]
-           t1 == [t0 EXCEPT !.chunkIds = Append(@, <<t, k>>), !.chunkLens = Append(@, a.len),
-                            !.chunkSamples = @ + 1, !.chunkDur = SatAdd32(@, a.dur)]
-           t2 == UpdateSampleSizes(t1, a.len)
-           t3 == UpdateSampleTimes(t2, a.dur)
-           t4 == UpdateRenderingOffsets(t3, a.cts)
-           t5 == UpdateSyncSamples(t4, a.sync)
-           w  == IF IsChunkFull(t5) THEN WriteChunk(t5, pos, lay) ELSE [t |-> t5, pos |-> pos, lay |-> lay]
-           t6 == UpdateDurations(w.t, a.dur)
-           t7 == [t6 EXCEPT !.sampleId = @ + 1]
+           t5 == Recorded(tw[t], <<t, k>>, a)
+           t6 == IF FixFlushOrder THEN Accounted(t5, a) ELSE t5
+           w  == IF IsChunkFull(t6) THEN WriteChunk(t6, pos, lay) ELSE [t |-> t6, pos |-> pos, lay |-> lay]
+           t7 == IF FixFlushOrder THEN w.t ELSE Accounted(w.t, a)
        IN /\ WriteSample(t, s)
           /\ tw' = [tw EXCEPT ![t] = t7]
           /\ pos' = w.pos /\ lay' = w.lay
           /\ calls' = Append(calls, [op |-> "write", t |-> t, len |-> a.len, dur |-> a.dur, cts |-> a.cts,
                                      sync |-> a.sync, valid |-> TRUE])
-  /\ UNCHANGED rejects
+  /\ UNCHANGED <<rejects, faults>>
+
+\* write_sample during which the stream fails (environment): the flush is attempted and
+\* stream_position() ("seek") or write_all() ("write", after w bytes) returns an error, which the
+\* call returns.  The track writer keeps what it had recorded up to that point.  What C01/C02/C14
+\* say about the output assumes that every call succeeded; after a fault only C17 (no panic) and
+\* C10 (the error is reported) remain, so the property-level state is left alone.
+IWriteSampleFault ==
+  /\ phase = "open" /\ Len(tw) = Len(Confs) /\ NumWrites < MaxSamples /\ faults < MaxFaults
+  /\ \E t \in 1..Len(tw), a \in Alphabet :
+       LET k  == Len(tracks[t].samples) + 1 + faults
+           t5 == Recorded(tw[t], <<t, k>>, a)
+           t6 == IF FixFlushOrder THEN Accounted(t5, a) ELSE t5
+           total == IntSum(t6.chunkLens)
+       IN /\ IsChunkFull(t6) /\ ~SkipsFlush(t6)
+          /\ \E kind \in {"seek", "write"} :
+             \E wr \in (IF kind = "write" /\ total >= 1 THEN {0, total - 1} ELSE {0}) :
+               /\ tw' = [tw EXCEPT ![t] = t6]
+               /\ pos' = Add(pos, FromInt(wr))
+               /\ calls' = Append(calls, [op |-> "write", t |-> t, len |-> a.len, dur |-> a.dur, cts |-> a.cts,
+                                          sync |-> a.sync, valid |-> TRUE, fault |-> kind, written |-> wr])
+  /\ faults' = faults + 1
+  /\ UNCHANGED <<phase, cfg, tracks, file, lay, rejects>>
 
 \* write_sample with a track id that does not exist: an error, nothing changes
 IRejectWrite ==
@@ -169,7 +202,7 @@ IRejectWrite ==
        /\ RejectWrite
        /\ calls' = Append(calls, [op |-> "write", t |-> t, len |-> 1, dur |-> <<1>>, cts |-> 0, sync |-> TRUE, valid |-> FALSE])
   /\ rejects' = rejects + 1
-  /\ UNCHANGED <<tw, pos, lay>>
+  /\ UNCHANGED <<tw, pos, lay, faults>>
 
 -----------------------------------------------------------------------------
 (* write_end: per track final flush (TrackEnd), media-data size patch, moov *)
@@ -218,20 +251,22 @@ IWriteEnd ==
        \* the invariants below judge it
        /\ phase' = "ended" /\ file' = FileOf(e.ts, e.pos) /\ UNCHANGED <<cfg, tracks>>
   /\ calls' = Append(calls, [op |-> "end"])
-  /\ UNCHANGED rejects
+  /\ UNCHANGED <<rejects, faults>>
 
-INext == IStart \/ IAddTrack \/ IWriteSample \/ IRejectWrite \/ IWriteEnd
+INext == IStart \/ IAddTrack \/ IWriteSample \/ IWriteSampleFault \/ IRejectWrite \/ IWriteEnd
 ISpec == IInit /\ [][INext]_ivars
 
 -----------------------------------------------------------------------------
 (* what TLC checks: the model's output refines Mux!WriteEnd *)
 PayloadInModel(off, len, b) == ModelPayloadOK(lay, off, len, b)
 
-OutputWellFormed == phase = "ended" => WellFormed(file)                              \* C02, C13
-OutputDecodes    == phase = "ended" => Decodes(file, tracks, PayloadInModel)        \* C01, C13
+OutputWellFormed == phase = "ended" /\ faults = 0 => WellFormed(file)                              \* C02, C13
+OutputDecodes    == phase = "ended" /\ faults = 0 => Decodes(file, tracks, PayloadInModel)        \* C01, C13
+\* C17: no call panics, whatever the stream did to earlier calls
+NoPanic == \A i \in 1..Len(tw) : ~tw[i].panicked
 \* rejected calls leave no trace: the model state of a history with rejected calls equals the
 \* state without them (IRejectWrite changes only `calls` and `rejects`)
-RejectsInvisible == [][IRejectWrite => UNCHANGED <<phase, cfg, tracks, file, tw, pos, lay>>]_ivars
+RejectsInvisible == [][IRejectWrite => UNCHANGED <<phase, cfg, tracks, file, tw, pos, lay, faults>>]_ivars
 
 \* every terminal state is one replay case for the real code
 EmitCase == phase = "ended" => PrintT("CASE " \o ToJson([calls |-> calls, n |-> Len(Confs)]))
